@@ -47,7 +47,7 @@ def random_doc(rng, size='small', version=None, layout=None, ifdata=None, a2ml=N
     sizes = {'tiny': (3, 1, 0.15), 'small': (4, 2, 0.3), 'medium': (6, 3, 0.5), 'large': (8, 4, 0.7)}
     depth, rep, popt = sizes[size]
     opts = docgen.GenOptions(version=version, max_depth=depth, max_repeat=rep, p_optional=popt, ifdata=ifdata, a2ml=a2ml,
-                             string_classes=strings or ['plain', 'empty', 'escapes', 'dquote', 'utf8'], **kw)
+                             string_classes=strings or ['plain', 'empty', 'escapes', 'dquote', 'utf8', 'mixed'], **kw)
     node = docgen.gen_tree(sp, rng, opts)
     if dupnames and rng.random() < dupnames:
         duplicate_named(node, rng, sp)
